@@ -428,6 +428,68 @@ fn register_check(acc: &mut Acc, rounds: usize) {
             acc.fail("global-register", json!({"round": round}), format!("after the writer finished the register holds {:?}, its last write was {:?}", last, value(n_writes - 1)));
             return;
         }
+        // several concurrent writers with restricted value sets: a read must be the initial
+        // value or a value that SOME writer wrote, and after all writers are joined the
+        // register must hold the last write of one of them (every linearisation ends with
+        // some writer's last write)
+        for sub in 0..200u64 {
+            // two values are written, one is the initial value, the fourth is never written
+            let perm = rt::mix(round as u64 * 1000 + sub);
+            let init = VALUES[(perm % 4) as usize];
+            let a = VALUES[((perm % 4 + 1) % 4) as usize];
+            let b = VALUES[((perm % 4 + 2) % 4) as usize];
+            let never = VALUES[((perm % 4 + 3) % 4) as usize];
+            init.write_global();
+            let barrier = Arc::new(std::sync::Barrier::new(4));
+            let stop = Arc::new(AtomicBool::new(false));
+            let bad_read = Arc::new(AtomicBool::new(false));
+            let mut hs = vec![];
+            for (v, other) in [(a, init), (b, init)] {
+                let barrier = barrier.clone();
+                hs.push(std::thread::spawn(move || {
+                    barrier.wait();
+                    for i in 0..300u32 {
+                        // alternate between the writer's own value and the initial one, ending with its own
+                        if i % 2 == 0 { v.write_global() } else { other.write_global() }
+                    }
+                    v.write_global();
+                }));
+            }
+            let mut rs = vec![];
+            for _ in 0..2 {
+                let barrier = barrier.clone();
+                let stop = stop.clone();
+                let bad_read = bad_read.clone();
+                rs.push(std::thread::spawn(move || {
+                    barrier.wait();
+                    let mut n = 0u64;
+                    while !stop.load(Ordering::SeqCst) {
+                        if C::global() == never {
+                            bad_read.store(true, Ordering::SeqCst);
+                        }
+                        n += 1;
+                    }
+                    n
+                }));
+            }
+            for h in hs {
+                h.join().unwrap();
+            }
+            stop.store(true, Ordering::SeqCst);
+            for r in rs {
+                acc.evals += r.join().unwrap();
+            }
+            acc.nontrivial_counted += 1;
+            let fin = C::global();
+            if bad_read.load(Ordering::SeqCst) {
+                acc.fail("global-register", json!({"round": round}), format!("a reader saw {:?} although the register started as {:?} and the two writers only ever wrote {:?}, {:?} and {:?}", never, init, a, b, init));
+                return;
+            }
+            if fin != a && fin != b {
+                acc.fail("global-register", json!({"round": round}), format!("two writers finished with {:?} and {:?} as their last writes but the register holds {:?}", a, b, fin));
+                return;
+            }
+        }
         // many writers, then a designated last writer
         let mut ws = vec![];
         for t in 0..8u64 {
@@ -508,7 +570,7 @@ fn run(args: &Args, rep: &mut Report) {
     }
     let mut acc = Acc::new();
     register_check(&mut acc, tier.pick(2, 12));
-    rep.add("global-register", false, "1 writer (20000 writes) + 6 readers with (c1, value, c2) windows; 8 concurrent writers then a designated last writer", vec![acc]);
+    rep.add("global-register", false, "1 writer (20000 writes) + 6 readers with (c1, value, c2) windows; 200 rounds per pass of 2 concurrent writers with restricted value sets + 2 readers (no never-written value may be read, final value = last write of one writer); 8 concurrent writers then a designated last writer", vec![acc]);
 }
 
 fn replay(sub: &str, case: &Value) -> Result<(), String> {
